@@ -113,6 +113,7 @@ func run(b *harness.B) {
 		runAddressCorruption(b, rng, b.Pick(100, 1000))
 		runIDCorruption(b, rng, b.Pick(25, 300))
 		runOtherCorruption(b, rng)
+		runHeldTexts(b, b.SubRng("held-texts"))
 		b.Sample(map[string]any{"kind": "corruption", "addresses_with_all_76_positions": b.Pick(100, 1000), "replacement_characters_per_position": 28})
 	case "values":
 		c := &checker{b: b, rng: b.SubRng("values")}
@@ -148,7 +149,7 @@ func main() {
 		},
 		MinEvals:    20000,
 		MinDistinct: 1500,
-		Require: []string{"registry_complete", "types_covered", "roundtrips", "update_roundtrips_apply", "update_roundtrips_revert",
+		Require: []string{"held_texts_parsed_back", "registry_complete", "types_covered", "roundtrips", "update_roundtrips_apply", "update_roundtrips_revert",
 			"shadow_store_elements_compared", "corruptions_tried", "corruptions_rejected", "corruption_positive_controls", "shape_cases", "policy_directed_cases", "shadow_proofs_verified"},
 		Extra: func(m *harness.Result, cov map[string]any) {
 			cov["exhaustive_subspace"] = "all 76 positions x 28 replacement characters of each sampled address string; all update shapes with <= 4 genesis outputs (batch 0)"
